@@ -155,6 +155,16 @@ int main(int argc, char **argv) {
                 int b = gr_slot_before(ws[i]), a2 = gr_slot_after(ws[i]), o = gr_slot_original(ws[i]); unsigned nc = gr_seg_n_cinfo(gseg);
                 if (wf == "ok" && (b < 0 || a2 < 0 || o < 0 || (unsigned)b >= nc || (unsigned)a2 >= nc || (unsigned)o >= nc)) wf = "assoc-range";
             }
+            // char / slot association (C05), as in impl_shape: every character covered by some slot's [before, after], every char-info naming slots of the stream
+            if (wf == "ok" && !ws.empty()) {
+                unsigned nc = gr_seg_n_cinfo(gseg); std::vector<char> cov(nc, 0);
+                for (size_t i = 0; i < ws.size(); i++) for (int k2 = gr_slot_before(ws[i]); k2 <= gr_slot_after(ws[i]); k2++) cov[k2] = 1;
+                for (unsigned k2 = 0; k2 < nc && wf == "ok"; k2++) if (!cov[k2]) wf = "char-uncovered@" + std::to_string(k2);
+                for (unsigned k2 = 0; k2 < nc && wf == "ok"; k2++) {
+                    const gr_char_info *ci = gr_seg_cinfo(gseg, k2); int cb = gr_cinfo_before(ci), ca = gr_cinfo_after(ci);
+                    if (cb < 0 || ca < 0 || (unsigned)cb >= ws.size() || (unsigned)ca >= ws.size()) wf = "cinfo-slot-range@" + std::to_string(k2) + ":" + std::to_string(cb) + "," + std::to_string(ca);
+                }
+            }
         }
         printf("%s WF=%s V%s | T nc=%zu,rtl=%d %sF%s%s%s\n", id.c_str(), wf.c_str(), verdicts.c_str(), (size_t)seg.charInfoCount(), dir & 1, g_events.c_str(), snapshot(&seg).c_str(), cin.c_str(), idx.c_str());
         gr_seg_destroy(gseg);
